@@ -28,58 +28,27 @@ for f in fixes:
 s += ("\nOne candidate was tried and *not* applied: parenthesising an assignment in the middle operand of `?:` in the formatter "
       "changed\na golden Metal test (`address[location] = value` inside a generated helper); the defect was repaired in the "
       "parser instead (f3b64c8).\n\n")
-s += """### 9.3 False alarms met while building, and what was done
-
-* C04 first compared the whole reflection metadata of both generations; the second generation legitimately reports
-  `ByteBuffer` where the first reports `BufferAddress` (DirectX export lowers buffer addresses to `ByteAddressBuffer`). The
-  property speaks of binding *slots*; the oracle now compares (group, name, location, count). Machinery corrected, nothing listed.
-* C17's first model predicted `ok` for pipelines the Metal back end rejects (`InvalidPipelineForMeshIntrinsic` when a file
-  contains mesh functions); which builds fail is now an *input* of the model (exactly as `build` is a parameter of the theorems).
-* C07 reported a `VIOLATION` for `ffx_fsr2_accumulate_pass.hlsl` on Metal: the compile *panics* (`ir_types.rs:218 extract_scalar
-  expects unmodified type`) — deterministically, on every run. A panic is C08's subject, not a determinism failure; the C07
-  oracle now only requires the same outcome (including the same panic site) on every run. The panic itself is reported by C08.
-* All checks at once raised alarms in `vp check` #2 because one property's table (C19's, mid-way through the layout fix) could
-  not be extracted and the single shared model executable then failed to build for everybody. Each property now has its own
-  executable (`rsslmodel_cxx`, `lean/Mains/Cxx.lean`), every generator runs on every check, and a missing model executable is
-  reported as a broken obligation of that property only.
-
-### 9.4 Seeded changes (independent sub-agents given only the property text) and which check catches them
+s += open(os.path.join(ROOT, "notes", "false_alarms.md")).read()
+s += """### 9.4 Seeded changes (independent sub-agents given only the property text) and which check catches them
 
 Each seed was re-verified by the lead (suite 382/382 with the change; demonstration fails with it and passes without it), then the
-property's check was run with `VERIF_REPO=<seed tree>`. Details are in `seeded/<id>/meta.json` (`lead_verification`).
+property's check was run with `VERIF_REPO=<seed tree>`. Details are in `seeded/<id>/meta.json` (`lead_verification`; `after` =
+result once the check had been strengthened, where the first run missed it or found no input).
 
 | seed | change (what it needs) | result of the check |
 |---|---|---|
 """
-rows = {
-    "C01-1": None, "C03-1": None, "C13-1": None, "C14-1": None,
-    "C02-1": "usage analysis skips the increment clause of `for` (a static / inout callee reachable only there)",
-    "C04-1": "subscript index printed without parentheses (a bare comma expression as index)",
-    "C05-1": "Metal `is_used` looked up with binary_search on a list that is only sorted per stage (multi-stage pipeline)",
-    "C06-1": "buffer-address test taken after array peeling (vk + buffer addresses, `BufferAddress g[3]`)",
-    "C06-2": "slot count of arrays ignores the per-element cost (Metal, array of raw/structured buffers then another resource)",
-    "C07-1": "suffix candidates checked against the all-scopes set (same generated base name in two or more scopes)",
-    "C07-2": "inline constant blocks sorted by location only (vk + buffer addresses in several groups with equal slot counts)",
-    "C09-1": "sign spacing decided on the operand node instead of its text (`-(--x)`, `+(++x)`)",
-    "C10-1": "fast path for float literals with up to 16 digits (16-digit odd digit string above 2^53, small scale)",
-    "C11-1": "same-level condition operators grouped right-to-left (`2 == 2 == 1`, `3 > 2 > 1`)",
-    "C12-1": "include cache keyed by (parent, name): a `#pragma once` file reached from two parents is pasted twice",
-    "C15-1": "generated global names no longer recorded for the local-variable pass (a local named like a generated `f_0`)",
-    "C16-1": "early return for the first all-exact candidate (in/out twins: order-dependent verdict)",
-    "C17-1": "result of an earlier pipeline with equal stages reused (different DefaultBindGroup)",
-    "C17-2": "selected index taken from the filtered list (by-name compile of a pipeline that is not first)",
-    "C18-1": "Metal reflection drops the outer modifier peel (typedef'd resource arrays reported as PushConstants/1)",
-    "C19-1": "offsets comparison skips members whose size/align agree (nested struct, equal size, different inner offsets)",
-}
 n = 0
-for sid in sorted(rows):
+for sid in sorted(os.listdir(os.path.join(ROOT, "seeded"))):
     p = os.path.join(ROOT, "seeded", sid, "meta.json")
     if not os.path.exists(p):
         continue
     m = json.load(open(p))
     lv = m.get("lead_verification", {})
     res = lv.get("check_result", "").replace("|", "/")
-    what = rows[sid] or m.get("summary", "")[:160].replace("|", "/")
+    if lv.get("after"):
+        res += " **After strengthening:** " + lv["after"].replace("|", "/")
+    what = (m.get("short") or m.get("summary", "")[:200]).replace("|", "/").replace("\n", " ")
     s += f"| {sid} | {what} | {res} |\n"
     n += 1
 s += f"\n{n} seeds so far. Where a seed was missed at first, the table says what was strengthened; nothing was loosened.\n\n"
